@@ -247,16 +247,26 @@ class LDMService:
             tuple of ordered tuples of data objects.
         """
 
-        def build_key(item):
-            return tuple(
-                Utils.get_nested(item, Utils.find_attribute(order.attribute, item))
-                for order in orders
-            )
+        def has_attribute(item: dict, order: OrderTupleValue) -> bool:
+            return bool(Utils.find_attribute(order.attribute, item))
 
-        reverse = any(
-            order.ordering_direction == OrderingDirection.DESCENDING for order in orders
-        )
-        return (tuple(sorted(search_results, key=build_key, reverse=reverse)),)
+        ordered = list(search_results)
+        # Stable sorts from the least to the most significant attribute, each in its own direction.
+        # Objects lacking an order attribute keep their relative order after those that have it.
+        for order in reversed(tuple(orders)):
+            present = [item for item in ordered if has_attribute(item, order)]
+            missing = [item for item in ordered if not has_attribute(item, order)]
+            present = list(
+                sorted(
+                    present,
+                    key=lambda item, order=order: Utils.get_nested(
+                        item, Utils.find_attribute(order.attribute, item)
+                    ),
+                    reverse=order.ordering_direction == OrderingDirection.DESCENDING,
+                )
+            )
+            ordered = present + missing
+        return (tuple(ordered),)
 
     def add_provider_data(self, data: AddDataProviderReq) -> int | None:
         """
